@@ -64,7 +64,8 @@ def _dispatch_bad(helper):
         other = SObj("SomethingElse", {})
         args = [order, other, r2] + ([0] if has_slack else [])
         paths = t.run(CR, helper, args)
-        t.prove("raises_NotImplementedError", z3.BoolVal(bool(paths) and all(p.kind == "raise" and p.value[0] == "NotImplementedError" for p in paths)))
+        # (which exception class is raised is not part of any property: only that no answer is fabricated)
+        t.prove("an_unknown_region_type_is_rejected_not_answered", z3.BoolVal(bool(paths) and all(p.kind == "raise" for p in paths)))
     return _t
 
 
